@@ -86,6 +86,10 @@ func (m *RWMutex) Lock() {
 		m.writer = true
 		return
 	}
+	// A thread that is about to call Lock has not announced itself yet: readers may still get in.
+	// (Without this point "parked at Lock" would always mean "announced", and interleavings in
+	// which a reader slips in between this thread's previous operation and its Lock are lost.)
+	s.park(pendingOp{kind: OpYield, where: site(2)})
 	// Go's writer preference: a pending Lock excludes new readers.
 	m.writersWaiting++
 	defer func() {
